@@ -479,3 +479,59 @@ Definition check_pinned (c : case) : bool :=
   match c with
   | CSeq steps => check_steps PinnedSeq.apply_op steps s0
   end.
+
+(* ==================================================================================== *)
+(* Histories: the interleaving semantics of the SAME [step] (Model/JobSched.v), and the  *)
+(* vocabulary in which Props/C14.v states the property.                                  *)
+(* ==================================================================================== *)
+Definition hist : Type := list (ev op).
+Definition cfg : Type := config sess pc.          (* thread pool (program counters), shared state *)
+Definition cfg0 : cfg := ([], s0).
+Definition run_from (c : cfg) (es : hist) : res cfg := run_sched step init_pc es c.
+Definition run (es : hist) : res cfg := run_from cfg0 es.
+
+(* a job (named by its handle) is pending: its done channel is open; finished: done is nil *)
+Definition pending (s : sess) (h : nat) : Prop := exists j, getj s h = Some j /\ jdone j = Open.
+Definition finished (s : sess) (h : nat) : Prop := exists j, getj s h = Some j /\ jdone j = Nil.
+(* the pending table holds the job *)
+Definition tracked (s : sess) (h : nat) : Prop := exists k, lookup k (table s) = Some h.
+(* the table entry of the job was overwritten by a later Task with the same number *)
+Definition orphaned (s : sess) (h : nat) : Prop := exists j, getj s h = Some j /\ jorph j = true.
+Definition final (st : Z) : Prop := st = StCompleted \/ st = StError \/ st = StCanceled.
+
+(* The operations of the property's quantifier.  accept / frag (the receive path's unlocked
+   writes of Job.Status / Job.Frags) are outside it; the theorems about panics, waiters and the
+   table hold with them as well, the theorems about the status exclude them. *)
+Definition c14_op (o : op) : bool := match o with OAccept _ | OFrag _ _ => false | _ => true end.
+Definition c14_ev (e : ev op) : bool := match e with Spawn o => c14_op o | Run _ => true end.
+Definition c14_pc (p : pc) : bool :=
+  match p with PA0 _ | PA1 _ | PA2 _ | PF0 _ _ | PF1 _ _ | PF2 _ _ => false | _ => true end.
+
+(* the finishing events: the critical section of handle that records a result, the critical
+   section of Cancel.  [commit p] = the job it may finish, the status it records, the result
+   tag it stores (None: Result is left alone) *)
+Definition commit (p : pc) : option (nat * Z * option Z) :=
+  match p with
+  | PH2 h err tag => Some (h, if err then StError else StCompleted, Some tag)
+  | PC1 h => Some (h, StCanceled, None)
+  | _ => None
+  end.
+
+(* Task: the window between the duplicate check (RLock) and the insert (Lock) *)
+Definition in_window (p : pc) : option Z :=
+  match p with PTask2 id _ => Some id | PTask3 id => Some id | _ => None end.
+(* no two Task calls with the same number are inside their windows at the same time *)
+Definition task_excl (ps : list pc) : Prop :=
+  forall t1 t2 p1 p2 i, nth_error ps t1 = Some p1 -> nth_error ps t2 = Some p2 ->
+    in_window p1 = Some i -> in_window p2 = Some i -> t1 = t2.
+(* ... at every point of the history [es] started in [c] *)
+Fixpoint tasks_serial (c : cfg) (es : hist) : Prop :=
+  task_excl (fst c) /\
+  match es with
+  | [] => True
+  | e :: r => match exec step init_pc e c with Ok c' => tasks_serial c' r | _ => True end
+  end.
+
+(* the same for the pinned code *)
+Definition pinned_run (es : hist) : res (config sess Pinned.opc) :=
+  run_sched Pinned.step Pinned.init_pc es ([], s0).
